@@ -3,9 +3,15 @@
 // Contracts for /verif (build tag "verif"): //@ comment blocks and pure ghost functions only.
 package frontend
 
-import "github.com/tetratelabs/wazero/internal/engine/wazevo/ssa"
+import (
+	"github.com/tetratelabs/wazero/internal/engine/wazevo/ssa"
+	"github.com/tetratelabs/wazero/internal/wasm"
+)
 
-var _ ssa.BasicBlock
+var (
+	_ ssa.BasicBlock
+	_ wasm.ValueType
+)
 
 // predCount: ghost - the number of predecessors of the block being entered.
 func predCount() int { return verif_ghost_int("preds") }
@@ -35,3 +41,46 @@ func predCount() int { return verif_ghost_int("preds") }
 //@   nosafety
 //@   loop 1 (i int, preds int)
 //@     invariant preds == predCount() && 0 <= i && i <= preds && len(c.bounds) == i && len(c.pointers) == i
+
+// ---- C08: the signature compiled code is given for a Wasm function type: two context pointers, then the
+// parameters and results in order, each mapped to the SSA type of the same width and class (references
+// are 64-bit integers).
+func ssaTypeOf(vt wasm.ValueType) ssa.Type {
+	switch vt {
+	case wasm.ValueTypeI32:
+		return ssa.TypeI32
+	case wasm.ValueTypeF32:
+		return ssa.TypeF32
+	case wasm.ValueTypeF64:
+		return ssa.TypeF64
+	case wasm.ValueTypeV128:
+		return ssa.TypeV128
+	}
+	return ssa.TypeI64
+}
+
+func isValueType(vt wasm.ValueType) bool {
+	return vt == wasm.ValueTypeI32 || vt == wasm.ValueTypeI64 || vt == wasm.ValueTypeF32 || vt == wasm.ValueTypeF64 ||
+		vt == wasm.ValueTypeV128 || vt == wasm.ValueTypeExternref || vt == wasm.ValueTypeFuncref
+}
+
+//@ prop C08
+//@ func WasmTypeToSSAType(vt wasm.ValueType) ssa.Type
+//@   ensures[same-width-and-class] r0 == ssaTypeOf(vt)
+//@   may-panic !isValueType(vt)
+//@   modifies nothing
+
+//@ func SignatureForWasmFunctionType(typ *wasm.FunctionType) ssa.Signature
+//@   requires len(typ.Params) < 1<<30 && len(typ.Results) < 1<<30
+//@   requires forall i int :: 0 <= i && i < len(typ.Params) ==> isValueType(typ.Params[i])
+//@   requires forall i int :: 0 <= i && i < len(typ.Results) ==> isValueType(typ.Results[i])
+//@   ensures[two-context-pointers-first] len(r0.Params) == len(typ.Params)+2 && r0.Params[0] == ssa.TypeI64 && r0.Params[1] == ssa.TypeI64
+//@   ensures[parameters-in-order] forall i int :: 0 <= i && i < len(typ.Params) ==> r0.Params[i+2] == ssaTypeOf(typ.Params[i])
+//@   ensures[results-in-order] len(r0.Results) == len(typ.Results) && forall i int :: 0 <= i && i < len(typ.Results) ==> r0.Results[i] == ssaTypeOf(typ.Results[i])
+//@   loop 0 (sig ssa.Signature, rangeindex int)
+//@     invariant len(sig.Params) == len(typ.Params)+2 && len(sig.Results) == len(typ.Results) && sig.Params[0] == ssa.TypeI64 && sig.Params[1] == ssa.TypeI64 && verif_fresh_slice(sig.Params) && verif_fresh_slice(sig.Results)
+//@     invariant forall i int :: 0 <= i && i <= rangeindex && i < len(typ.Params) ==> sig.Params[i+2] == ssaTypeOf(typ.Params[i])
+//@   loop 1 (sig ssa.Signature, rangeindex int)
+//@     invariant len(sig.Params) == len(typ.Params)+2 && len(sig.Results) == len(typ.Results) && sig.Params[0] == ssa.TypeI64 && sig.Params[1] == ssa.TypeI64 && verif_fresh_slice(sig.Params) && verif_fresh_slice(sig.Results)
+//@     invariant forall i int :: 0 <= i && i < len(typ.Params) ==> sig.Params[i+2] == ssaTypeOf(typ.Params[i])
+//@     invariant forall i int :: 0 <= i && i <= rangeindex && i < len(typ.Results) ==> sig.Results[i] == ssaTypeOf(typ.Results[i])
